@@ -28,6 +28,7 @@ APPLY = {"len": len, "first": lambda vs: vs[0] if vs else None, "nn": lambda vs:
          # a callback that works in place on the list it is given (a typical median helper does)
          "rev": lambda vs: (vs.reverse(), len(vs))[1]}
 OFFSETS = [1700000000, 1e9, 123456789.0, -1e8]
+CANCEL = [1e16, -1e16, 1.0, 0.5, 1e16, -1e16, 0.1]     # sums that only a careful summation gets right
 
 
 def gen_case(rng):
@@ -68,11 +69,13 @@ def gen_case(rng):
     # some numeric columns sit on a large offset with a small spread (timestamps, ids): the
     # textbook two-pass variance is exact there, shortcuts are not
     offs = [rng.choice(OFFSETS) if (vkinds[j] != "str" and rng.random() < 0.2) else None for j in range(nv)]
+    cancel = [vkinds[j] == "float" and rng.random() < 0.15 for j in range(nv)]
     trace = [meta]
     for _ in range(nrows):
         keys = [None if rng.random() < p_knone else rng.choice(pools[c]) for c in range(nk)]
         vals = [None if rng.random() < p_vnone else V.pick_value(rng, vkinds[j], 0.0) for j in range(nv)]
         vals = [v if (v is None or offs[j] is None or isinstance(v, bool) or abs(v) > 1000) else offs[j] + v for j, v in enumerate(vals)]
+        vals = [rng.choice(CANCEL) if (cancel[j] and v is not None) else v for j, v in enumerate(vals)]
         trace.append({"op": "row", "k": V.enc_list(keys), "v": V.enc_list(vals)})
     return trace
 
